@@ -199,6 +199,11 @@ func (s *session[H]) doRequest(
 	}
 
 	h, err := s.processResponses(r)
+	if err == nil && h[0].Height() != req.GetOrigin() {
+		// the peer answered with a different range than it was asked for
+		err = fmt.Errorf("header/p2p: received range starts at %d, requested %d",
+			h[0].Height(), req.GetOrigin())
+	}
 	if err != nil {
 		span.SetStatus(codes.Error, err.Error())
 		logFn := log.Errorw
